@@ -1307,7 +1307,20 @@ func (e *Exec) stdlibCall(st *State, call *ast.CallExpr, fn *types.Func, key str
 	}
 	if full == "encoding/binary.Write" && len(args) == 3 && args[0].T.Sort == SCont {
 		// fixed-size unsigned value, little endian: encoding/binary encodes it into a fresh buffer and calls w.Write once
-		if b, ok := types.Unalias(args[2].Ty).Underlying().(*types.Basic); ok && strings.Contains(args[1].Ty.String(), "littleEndian") {
+		// the data parameter is `any`: look at the static type of the argument expression
+		var dataT types.Type = args[2].Ty
+		dataV := args[2].T
+		if call != nil && len(call.Args) == 3 {
+			dataT = e.typeOf(call.Args[2])
+			if _, isB := types.Unalias(dataT).Underlying().(*types.Basic); isB {
+				dataV = e.eval(st, call.Args[2])
+			}
+		}
+		orderT := args[1].Ty.String()
+		if call != nil && len(call.Args) == 3 {
+			orderT = e.typeOf(call.Args[1]).String() + " " + e.src(call.Args[1])
+		}
+		if b, ok := types.Unalias(dataT).Underlying().(*types.Basic); ok && strings.Contains(orderT, "ittleEndian") {
 			n := map[types.BasicKind]int64{types.Uint8: 1, types.Uint16: 2, types.Uint32: 4}[b.Kind()]
 			ms := types.NewMethodSet(args[0].Ty)
 			if sel := ms.Lookup(nil, "Write"); n > 0 && sel != nil {
@@ -1319,7 +1332,7 @@ func (e *Exec) stdlibCall(st *State, call *ast.CallExpr, fn *types.Func, key str
 				zero := Term{fmt.Sprintf("((as const %s) %s)", ArraySort(SInt, m.vsort), e.zeroElem(bt).S), ArraySort(SInt, m.vsort)}
 				st.heap[key] = e.bindHeap(key, Store(e.heapGet(st, key), ref, zero))
 				buf := MkSlice(ref, IntLit(0), IntLit(n), IntLit(n))
-				v := e.toSort(args[2].T, SInt)
+				v := e.toSort(dataV, SInt)
 				e.noFrame = true
 				for i := int64(0); i < n; i++ {
 					e.storeElem(st, buf, bt, IntLit(i), Mod(Div(v, pow2(uint(8*i))), IntLit(256)))
